@@ -141,6 +141,12 @@ def notifyContent (w : World P) (j : Nat) : World P :=
         let hasExc := match cn.pays[p]? with | some y => y.exc.isSome | none => true
         if hasExc then w else w.setConn c (cn.payFail p .connClosed)
 
+/-- the timer a stream carries has fired (`TimerContext._cancelled`) -/
+def payTimedOut (w : World P) (y : Pay) : Bool :=
+  match y.tj with
+  | some j' => (match w.exchs[j']? with | some e => e.timedOut | none => false)
+  | none => false
+
 mutual
 /-- resume the task of exchange `j` if what it waits for is there -/
 def wake (w : World P) (j : Nat) : Nat → World P
@@ -279,9 +285,9 @@ def opRead (w : World P) (j : Nat) : World P :=
         | some y =>
           -- StreamReader.readany: `_wait` (dead protocol → RuntimeError; cancelled timer → TimeoutError),
           -- then `_read_nowait` → `timer.assert_timeout()`
-          if y.exc.isNone && !y.eof && (y.data.isEmpty || !e.timedOut) && !cn.connected then
+          if y.exc.isNone && !y.eof && (y.data.isEmpty || !w.payTimedOut y) && !cn.connected then
             fail (giveUp (notifyContent w j) j true) j .runtime
-          else if y.exc.isNone && e.timedOut then fail (giveUp (notifyContent w j) j true) j .timeout
+          else if y.exc.isNone && w.payTimedOut y then fail (giveUp (notifyContent w j) j true) j .timeout
           else wake (w.modExch j (fun e => { e with phase := .reading })) j (fuelOf w)
 
 def opRelease (w : World P) (j : Nat) : World P :=
@@ -313,7 +319,16 @@ def fireTimeout (w : World P) (j : Nat) : World P :=
       if d > w.now then w else
       match e.phase with
       | .waitHead => fail (giveUp w j true) j .timeout
-      | .reading => fail (giveUp (notifyContent w j) j true) j .timeout
+      | .reading =>
+        -- the read task sits inside the timer context of the stream it reads; a stream created by
+        -- another request's parser carries that request's timer
+        let mine := match e.content with
+          | some (c, p) => (match w.conns[c]? with
+            | some cn => (match cn.pays[p]? with | some y => y.tj == some j | none => false)
+            | none => false)
+          | none => false
+        if mine then fail (giveUp (notifyContent w j) j true) j .timeout
+        else w.modExch j (fun e => { e with timedOut := true, deadline := none })
       | .gotHead => w.modExch j (fun e => { e with timedOut := true, deadline := none })
       | _ => w.modExch j (fun e => { e with deadline := none })
 
